@@ -448,7 +448,7 @@ def canon(n, env=None, depth=0, subst=True):
         if op == '>':
             return _membership(('<', b, a))
         if op == '>=':
-            return ('<=', b, a)
+            return _membership(('<=', b, a))
         return _membership((op, a, b))
     if k == 'CXXOperatorCallExpr':
         args = [rec(x) for x in c[1:]]
@@ -491,6 +491,8 @@ def canon(n, env=None, depth=0, subst=True):
                     return ('.', rec(base), fld)
         if name.startswith('std::') and name.endswith('::emplace_back') and len(args) == 1:
             name = name[:-len('emplace_back')] + 'push_back'        # appending one existing element: one spelling
+        if name.startswith('std::') and name.endswith('::push_back') and len(args) == 1 and isinstance(args[0], tuple) and len(args[0]) == 2 and args[0][0] == 'new':
+            name, args = name[:-len('push_back')] + 'emplace_back', []     # appending a default-constructed element: `push_back(T())` is `emplace_back()`
         if me.get('k') != 'MemberExpr':
             return ('mcall', name, rec(me)) + tuple(args)
         if base is None or base.get('k') == 'CXXThisExpr':
@@ -570,7 +572,15 @@ def _pure(d):
 
 
 def _emptiness(t):
-    """`c.size() > 0` / `c.size() != 0` is `!c.empty()`, `c.size() == 0` is `c.empty()`: one canonical spelling of an emptiness test."""
+    """`c.size() > 0` / `c.size() != 0` is `!c.empty()`, `c.size() == 0` is `c.empty()`: one canonical spelling of an emptiness test.
+    A size is a whole number: `c.size() >= k` is `c.size() > k - 1`, `c.size() <= k` is `c.size() < k + 1`."""
+    def is_size(b):
+        return isinstance(b, tuple) and len(b) == 3 and b[0] == 'mcall' and isinstance(b[1], str) and b[1].endswith('::size') and b[1].startswith('std::')
+    if len(t) == 3 and t[0] == '<=':
+        if isinstance(t[1], tuple) and t[1][:1] == ('num',) and isinstance(t[1][1], int) and is_size(t[2]):
+            t = ('<', ('num', t[1][1] - 1), t[2])
+        elif isinstance(t[2], tuple) and t[2][:1] == ('num',) and isinstance(t[2][1], int) and is_size(t[1]):
+            t = ('<', t[1], ('num', t[2][1] + 1))
     if len(t) == 3 and t[0] in ('<', '==', '!='):
         for a, b, side in ((t[1], t[2], 0), (t[2], t[1], 1)):
             if a == ('num', 0) and isinstance(b, tuple) and len(b) == 3 and b[0] == 'mcall' and isinstance(b[1], str) and b[1].endswith('::size') and b[1].startswith('std::'):
